@@ -39,6 +39,9 @@ def hh_keys(rng, n, L):
         k = keys[int(rng.integers(0, len(keys)))]
         if len(k) < L:
             out.append(k + b"\0")
+    if rng.random() < 0.15:
+        # a very long key (lengths beyond one byte's range): its identity is still its first max_key_len bytes
+        out.append(bytes(rng.integers(1, 256, int(rng.integers(256, 400)), dtype=np.uint8)))
     if rng.random() < 0.6 and keys:
         # siblings that differ only in one byte: the last counted byte (position max_key_len-1), the first, or a middle one
         k = keys[int(rng.integers(0, len(keys)))]
@@ -185,6 +188,10 @@ class Run:
             if sum(self.ghost[t].values()) >= CAP:
                 self.saturation_possible = True
             self.hook(self, t, ev)
+            # every other sketch must still be where its own history left it (no aliasing through merges / loads)
+            for j in range(len(self.real)):
+                if j != t:
+                    self.hook(self, j, ["untouched-sketch-after", ev])
         if self.shared:
             mon.count("histories_with_shared_cell")
         if self.alias_in_cell:
